@@ -29,6 +29,10 @@ class ErrcModel(Model):
                 it.ev(fr, a, depth)
             it.act('FROM_CHARS', fr.f.loc(n))
             return self.result()
+        g = it.prog.funcs.get(callee['id'])
+        if callee.get('repo') and g is not None and g.body is not None and depth < it.max_depth \
+                and any('t' in p and 'errc' in g.type(p) for p in g.params):
+            return NotImplemented       # a repo helper that receives the error code itself: its mapping is part of this function's
         vals = [it.ev(fr, a, depth) for a in args]
         if obj is not None:
             it.ev(fr, obj, depth)
@@ -61,7 +65,7 @@ def targets(prog, under):
 
 def outcomes(prog, f, ec, byparam):
     model = ErrcModel(ec)
-    it = Interp(prog, model, max_depth=0, max_paths=3000)
+    it = Interp(prog, model, max_depth=2, max_paths=3000)
 
     def init(it_, fr):
         for p in f.params:
